@@ -100,10 +100,10 @@ ThrStack(dd, r, tt) ==
 \* them there and the one(s) that split noise and prior); real threshold: replications that cross 75
 Reps == {26, 38}
 RepForms == {1, 6, 11, 13, 14, 15, 16}       \* quick: the four full forms and one form of each diagonal kind
-LowThr(r) == IF Thorough THEN {0, 1, 2}
+LowThr(r) == IF Thorough /\ (r.i1 + r.j) % 3 = 0 THEN {0, 1, 2}
              ELSE IF r.nl = 2 THEN {0, 1} ELSE IF r.m1 = 1 THEN {0, 1} ELSE {0, 2}
 RepSel(r) == /\ r.nl = 1 /\ IsGaussPrior(r) /\ r.m1 # r.n /\ r.m1 > 1 /\ r.av = 1
-             /\ (Thorough \/ (r.m1 = 3 /\ r.j = 13 /\ r.i1 \in RepForms) \/ (r.m1 = 2 /\ r.i1 = 16 /\ r.j \in RepForms))
+             /\ ((Thorough /\ (r.i1 + r.j) % 4 = 0) \/ (r.m1 = 3 /\ r.j = 13 /\ r.i1 \in RepForms) \/ (r.m1 = 2 /\ r.i1 = 16 /\ r.j \in RepForms))
 RepsOf(r) == IF ~RepSel(r) THEN {}
              ELSE IF Thorough THEN Reps
              ELSE IF r.i1 \in {13, 16} /\ r.j \in {13, 16} THEN Reps ELSE {26}
@@ -112,15 +112,15 @@ RepsOf(r) == IF ~RepSel(r) THEN {}
 \* read-only.  No expectation depends on it.  quick: one layout per (configuration, threshold), all layouts over the configurations.
 Layouts == <<"f64c", "int", "f32", "fortran", "strided", "readonly">>
 LayAt(q) == Layouts[(q % 6) + 1]
-LaysOf(r, v) == IF Thorough THEN {LayAt(r.i1 + r.j + r.m1 + v), LayAt(r.i1 + r.j + r.m1 + v + 3)} ELSE {LayAt(r.i1 + r.j + r.m1 + v)}
-LayOnly(r) == IF Thorough THEN {Layouts[q] : q \in 2..6}
+LaysOf(r, v) == {LayAt(r.i1 + r.j + r.m1 + v + (IF Thorough THEN r.av ELSE 0))}
+LayOnly(r) == IF Thorough THEN {Layouts[((r.i1 + r.j + r.m1 + r.av) % 5) + 2], Layouts[((r.i1 + r.j + r.m1 + r.av + 2) % 5) + 2]}
               ELSE IF (r.i1 + r.j) % 2 = 0 THEN {Layouts[((r.i1 + (r.j \div 2) + r.m1) % 5) + 2]} ELSE {}
 ThrChoices(r) == {tt \in {[thr |-> v, rep |-> 1, lay |-> l] : v \in LowThr(r), l \in {Layouts[q] : q \in 1..6}} : tt.lay \in LaysOf(r, tt.thr) /\ SomeAbove(r, tt)}
                  \cup {tt \in {[thr |-> DefaultThr, rep |-> rp, lay |-> LayAt(r.i1 + r.j)] : rp \in RepsOf(r)} : SomeAbove(r, tt)}
                  \cup {[thr |-> DefaultThr, rep |-> 1, lay |-> l] : l \in LayOnly(r)}
 
 ThrUglaSel(r) == Thorough \/ r.m = 3 \/ (r.i1 + r.u) % 4 = 0
-ThrUglaChoices(r) == {tt \in {[thr |-> v, rep |-> 1, lay |-> "f64c"] : v \in (IF Thorough THEN {0, 1, 2} ELSE IF r.m = 1 THEN {0} ELSE {1})} : Above(r.m, tt.thr)}
+ThrUglaChoices(r) == {tt \in {[thr |-> v, rep |-> 1, lay |-> "f64c"] : v \in (IF r.m = 1 THEN {0} ELSE IF Thorough /\ r.m = 3 THEN {1, 2} ELSE {1})} : Above(r.m, tt.thr)}
 ThrUglaL(r, dd, tt) == SideL(GForm(r.i1).kind, GForm(r.i1).form, dd.L1, Above(r.m, tt.thr))
 
 \* ---- state machine -------------------------------------------------------------------------------------------------
